@@ -413,3 +413,48 @@ def density(config, ps):
         data = config.data.cal_angle([np.ascontiguousarray(p) for p in ps])
         amp = config.get_amplitude()
         return np.asarray(amp(data)), data
+
+
+# ---------------------------------------------------------------------------------------------------------------------------
+# Known declaration-order dependence of the library (recorded findings, see known_findings.json): per-particle state taken from
+# the FIRST declared decay.  Both C19 (key / candidate order) and C02 (chain order) can meet it; the class of a card is decided
+# from its structure only (never from the outcome).
+RUNNING_WIDTH_MODELS = ("default", "BWR", "BWR2", "BWR_below", "BWR_normal", "BWR_coupling", "GS_rho", "BWR_LS", "BWR_LS2")
+KF_BWL = " [resonance with decay modes of different minimal l, default bw_l]"
+KF_CREATOR = " [below_threshold decay of a resonance with several creating decays (parent or sibling candidates)]"
+
+
+def declaration_order_class(meta):
+    """'' or the key of the recorded order-dependence class the card belongs to."""
+    from ..oracle.selection import ref_ls
+
+    qn = {f["name"]: (f["j2"], f["p"]) for f in meta["finals"]}
+    qn.update({r["name"]: (r["j2"], r["p"]) for r in meta["resonances"]})
+    model = {r["name"]: r["model"] for r in meta["resonances"]}
+    modes, creators = {}, {}
+    for c in meta["ref_chains"]:
+        for m, d in c["decays"]:
+            d = list(d)
+            if m in model and model[m] in RUNNING_WIDTH_MODELS:
+                (ja, pa), (jb, pb), (jc, pc) = qn[m], qn[d[0]], qn[d[1]]
+                for brk in (False, True):
+                    lsl = ref_ls(ja, jb, jc, pa, pb, pc, brk)
+                    if lsl:
+                        modes.setdefault((m, brk), set()).add(min(l for l, _s in lsl))
+            for x in d:
+                creators.setdefault(x, set()).add((m, tuple(y for y in d if y != x)))
+    if any(len(v) > 1 for v in modes.values()):
+        return KF_BWL
+    # slots (candidate-list names) whose decay carries below_threshold: every candidate of the slot is concerned
+    bt_slots = [k.split("->")[0] for k, o in meta["dec_opts"].items() if o and o.get("below_threshold")]
+    for r in meta["resonances"]:
+        uses_creator = model[r["name"]] == "BWR_below" or any(_slot_of(r["name"]) == _slot_of(sl) for sl in bt_slots)
+        if uses_creator and len(creators.get(r["name"], ())) > 1:
+            return KF_CREATOR
+    return ""
+
+
+def _slot_of(name):
+    """RBE0_tag / RBE_tag -> 'RBE' + tag (candidate index dropped)"""
+    head, _, tail = name.partition("_")
+    return head.rstrip("0123456789") + "_" + tail
